@@ -39,7 +39,7 @@ var (
 	regCleanLogs          = util.ToRegexRepl([]string{
 		// Clean apparmor log file
 		`.*apparmor="`, `apparmor="`,
-		`(peer_|)pid=[0-9]*\s`, " ",
+		`(peer_|)pid=[0-9]*(\s|$)`, " ",
 		`\x1d`, " ",
 
 		// Remove basic rules from abstractions/base
